@@ -237,20 +237,26 @@ theorem rank_ack {s : Sys} (I : Inv s) (g : Nat) (cl : Cls) (j : Nat) :
 /-! ## a busy GPU can move -/
 
 theorem t1_hCtrl_true {c : Cp} {x : Cmd} {rest : List Cmd} {rq gq : Bool} (hf : c.fault = none)
-    (hd : c.drvIn = x :: rest) (hs : c.shoot = false) (hp : Pre x rq gq) : (Cp.hCtrl c).2 = true := by
+    (hd : c.drvIn = x :: rest) (hs : c.shoot = false) (hn : c.numCache = 0) (hp : Pre x rq gq) : (Cp.hCtrl c).2 = true := by
   unfold Cp.hCtrl
   rw [if_neg (by simp [hf])]
   cases x with
   | drain => simp only [hd]; split <;> rfl
   | rdmaRestart => simp only [hd]
-  | shoot id => simp [hd, hs]
+  | shoot id => simp [hd, hs, hn]
   | restart => simp only [hd]; split <;> rfl
   | mig id => simp only [hd]; split <;> rfl
   | flush f => exact hp.elim
   | other => exact hp.elim
 
+theorem t1_shoot_setTok {x : Cmd} {cl : Cls} {k : K} (b : Cp) (o i : List Sub) (n : Nat) (hch : (cl, k) ∈ chain x)
+    (hc : cl = .cache) (hk : k = .flush) : (setTok (baseX x b) cl k o i n).shoot = true := by
+  subst hc; subst hk
+  cases x <;> simp [chain] at hch <;> rfl
+
 theorem t1_stage_true {c : Cp} {cl : Cls} {y : Sub} {rest : List Sub} (hf : c.fault = none)
-    (hi : c.inn cl = y :: rest) (hk : y.k ≠ .junk) : (stageOf cl c).2 = true := by
+    (hi : c.inn cl = y :: rest) (hk : y.k ≠ .junk)
+    (hsh : cl = .cache → y.k = .flush → c.shoot = true) : (stageOf cl c).2 = true := by
   cases cl with
   | rdma =>
     have hi' : c.rdmaIn = y :: rest := hi
@@ -269,8 +275,15 @@ theorem t1_stage_true {c : Cp} {cl : Cls} {y : Sub} {rest : List Sub} (hf : c.fa
   | cache =>
     have hi' : c.cacheIn = y :: rest := hi
     simp only [stageOf, Cp.rCache, hf, hi']
-    cases hy : y.k <;> simp_all <;> repeat' split
-    all_goals rfl
+    cases hy : y.k
+    · have hs := hsh rfl hy
+      simp [hs]
+      repeat' split
+      all_goals rfl
+    · simp_all
+      repeat' split
+      all_goals rfl
+    · simp_all
   | tlb =>
     have hi' : c.tlbIn = y :: rest := hi
     simp only [stageOf, Cp.rTLB, hf, hi']
@@ -305,7 +318,7 @@ theorem busy_enabled {x : Cmd} {loc : BLoc} {rq gq : Bool} {c : Cp} {m : Comps} 
   | cmd =>
     obtain ⟨hcp, _, _⟩ := h'
     left
-    exact ⟨1, t1_hCtrl_true (c := c) (fld Cp.fault hcp rfl) (fld Cp.drvIn hcp rfl) (fld Cp.shoot hcp rfl) pre⟩
+    exact ⟨1, t1_hCtrl_true (c := c) (fld Cp.fault hcp rfl) (fld Cp.drvIn hcp rfl) (fld Cp.shoot hcp rfl) (fld Cp.numCache hcp rfl) pre⟩
   | tok cl k =>
     obtain ⟨O, P, I, C, g⟩ := h'
     cases O with
@@ -329,6 +342,7 @@ theorem busy_enabled {x : Cmd} {loc : BLoc} {rq gq : Bool} {c : Cp} {m : Comps} 
           rw [hk']
           have hf : c.fault = none := by rw [g.cp]; exact t1_fault_setTok ..
           exact t1_stage_true (y := ⟨k, i, 0⟩) (rest := toks k 0 I') hf (tok_inn g.cp) (chain_ne_junk g.ch)
+            (fun hc hk => by rw [g.cp]; exact t1_shoot_setTok _ _ _ _ g.ch hc hk)
   | pmcOut =>
     obtain ⟨⟨id, _, hcp⟩, _, _⟩ := h'
     right; right; right; right; left
@@ -338,7 +352,7 @@ theorem busy_enabled {x : Cmd} {loc : BLoc} {rq gq : Bool} {c : Cp} {m : Comps} 
     obtain ⟨_, hcp, _, _⟩ := h'
     left
     exact ⟨7, t1_stage_true (cl := .pmc) (y := ⟨.flush, 0, 0⟩) (rest := []) (fld Cp.fault hcp rfl)
-      (fld Cp.pmcIn hcp rfl) (by simp)⟩
+      (fld Cp.pmcIn hcp rfl) (by simp) (fun h => by cases h)⟩
   | ans =>
     obtain ⟨hcp, _, _⟩ := h'
     right; right; right; left
